@@ -226,6 +226,16 @@ Definition path_step (st : fsnode * list Z) (l : list Z) : (fsnode * list Z) * l
   | 52 :: p => (st, match list_children fs p with inr names => Zlen names :: names | inl e => [perr_z e] end)
   | 53 :: p => let '(during, after) := visit_and_restore fs cwd p in
                ((fs, after), [if list_eq_dec Z.eq_dec during cwd then 1 else 0; if list_eq_dec Z.eq_dec after cwd then 1 else 0])
+  | 54 :: n :: rest =>
+      if (0 <=? n) && (n <=? Zlen rest) then
+        let p := firstn (Z.to_nat n) rest in
+        let q := skipn (Z.to_nat n) rest in
+        let in1 := chdir fs cwd p in
+        let '(_, after_inner) := visit_and_restore fs in1 q in
+        let final := chdir fs after_inner cwd in
+        ((fs, final), [if list_eq_dec Z.eq_dec in1 cwd then 1 else 0; if list_eq_dec Z.eq_dec after_inner in1 then 1 else 0;
+                       if list_eq_dec Z.eq_dec final cwd then 1 else 0])
+      else (st, [PRE])
   | _ => (st, [PRE])
   end.
 
